@@ -104,7 +104,9 @@ class ScheduledImpulseEvent(Event):
             scope=config.scope,
             scope_instance_id=config.scope_instance_id,
             start_time_jd=datetimeToJulianDate(config.start_time),
-            end_time_jd=datetimeToJulianDate(config.end_time),
+            # [NOTE]: An impulse is instantaneous, its interval is its instant. A configured end time would
+            #   make it relevant - and handed over again - in every later timestep up to that time.
+            end_time_jd=datetimeToJulianDate(config.start_time),
             event_type=config.event_type,
             planned=config.planned,
             thrust_vec_0=config.thrust_vector[0],
